@@ -1,0 +1,83 @@
+//go:build verif
+
+// Package verifhooks re-exports, for the verification harness only (build tag
+// "verif"), the pieces of internal/bufferutil that cannot be imported from
+// outside the module: the shared scratch-buffer free list and the serializer.
+// It adds no behaviour of its own.
+package verifhooks
+
+import (
+	"encoding/binary"
+	"io"
+
+	"github.com/vulpemventures/go-elements/internal/bufferutil"
+)
+
+// FreeListCap is the capacity of the shared free list.
+func FreeListCap() int { return cap(bufferutil.BinarySerializer) }
+
+// FreeListLen is the number of buffers currently on the shared free list.
+func FreeListLen() int { return len(bufferutil.BinarySerializer) }
+
+// FreeListDrain removes every buffer currently on the free list and returns
+// them (each over its full 8 bytes), oldest first.
+func FreeListDrain() [][]byte {
+	var out [][]byte
+	for {
+		select {
+		case b := <-bufferutil.BinarySerializer:
+			out = append(out, b[:8])
+		default:
+			return out
+		}
+	}
+}
+
+// PutUint writes the n-byte little-endian encoding of v through the free list.
+func PutUint(w io.Writer, n int, v uint64) error {
+	switch n {
+	case 1:
+		return bufferutil.BinarySerializer.PutUint8(w, uint8(v))
+	case 2:
+		return bufferutil.BinarySerializer.PutUint16(w, binary.LittleEndian, uint16(v))
+	case 4:
+		return bufferutil.BinarySerializer.PutUint32(w, binary.LittleEndian, uint32(v))
+	default:
+		return bufferutil.BinarySerializer.PutUint64(w, binary.LittleEndian, v)
+	}
+}
+
+// Uint reads an n-byte little-endian integer through the free list.
+func Uint(r io.Reader, n int) (uint64, error) {
+	switch n {
+	case 1:
+		v, err := bufferutil.BinarySerializer.Uint8(r)
+		return uint64(v), err
+	case 2:
+		v, err := bufferutil.BinarySerializer.Uint16(r, binary.LittleEndian)
+		return uint64(v), err
+	case 4:
+		v, err := bufferutil.BinarySerializer.Uint32(r, binary.LittleEndian)
+		return uint64(v), err
+	default:
+		return bufferutil.BinarySerializer.Uint64(r, binary.LittleEndian)
+	}
+}
+
+// SerializeVector is NewSerializer(nil) + WriteVector(v) + Bytes().
+func SerializeVector(v [][]byte) ([]byte, error) {
+	s := bufferutil.NewSerializer(nil)
+	if err := s.WriteVector(v); err != nil {
+		return nil, err
+	}
+	return s.Bytes(), nil
+}
+
+// SerializeVarSlice is NewSerializer(nil) + WriteVarSlice(b) + Bytes().
+func SerializeVarSlice(b []byte) ([]byte, error) {
+	s := bufferutil.NewSerializer(nil)
+	if err := s.WriteVarSlice(b); err != nil {
+		return nil, err
+	}
+	return s.Bytes(), nil
+}
